@@ -360,12 +360,32 @@ def verify_after_crash(case, w, ftip, dbdir, want_h, out, crash_ev, klass):
             out['inconclusive'].append(f'resumed server made no progress ({case["sid"]} cut {klass})')
         else:
             diffs = []
-            await compare_index(srv, w, random.Random(2), label='resumed', diffs_out=diffs, counters=c)
+            limit = case.get('reorg_limit', 5)
+            await compare_index(srv, w, random.Random(2), label='resumed', diffs_out=diffs, counters=c,
+                                check_undo=limit if case.get('check_undo') else None)
             c['resume_comparisons'] = c.get('resume_comparisons', 0) + 1
             if diffs:
                 kinds = sorted({k for k, _l, _d in diffs})
                 viol(classify_resume(case, crash_ev, kinds), f'after restart and catch-up the index differs from the daemon chain: '
                      f'{[(k, d) for k, _l, d in diffs[:3]]}', {'kinds': kinds})
+            elif case.get('probe_reorg'):
+                # C15: the blocks indexed before the (unclean) restart must still be undoable: replace the last `limit`
+                depth = max(1, min(limit, w.height() // 2))
+                w.switch_to(w.fork(depth, depth + 1, rng=random.Random(case['wseed'] + 5)))
+                ok2 = await srv.wait_caught_up(900)
+                exc2 = srv.check_task()
+                c['probe_reorgs_after_crash_restart'] = c.get('probe_reorgs_after_crash_restart', 0) + 1
+                if exc2:
+                    last = exc2.strip().splitlines()[-1][:200]
+                    viol('probe-reorg/server-dies:' + last.split(':')[0].split('.')[-1], f'a depth-{depth} reorg (limit {limit}) after crash-restart '
+                         f'and catch-up failed: {last}', exc2)
+                elif not ok2:
+                    out['inconclusive'].append('probe reorg after crash-restart made no progress')
+                else:
+                    diffs = []
+                    await compare_index(srv, w, random.Random(3), label='after-probe-reorg', diffs_out=diffs, counters=c, check_undo=limit)
+                    if diffs:
+                        viol('probe-reorg/index-differs', f'after the probe reorg the index differs: {[(k, d) for k, _l, d in diffs[:3]]}')
         await srv.stop()
         srv.close_db()
         return ok
